@@ -184,13 +184,16 @@ class PollBoom(Exception):
 
 
 def make_poll_fn(mode, k, b):
-    seen = b.poll_state.setdefault(k, {})
+    # (the function must not reference the stack it belongs to: reclamation scenarios look at what a raised
+    # exception's traceback keeps alive)
+    state = b.poll_state
+    seen = state.setdefault(k, {})
 
     def behave(idx, descriptors):
         instr.LOG.add("poll.shown", k=k, idx=idx, results=[instr._short(d.result, 40) for d in descriptors])
-        if mode == "raise_once" and descriptors and not b.poll_state.get(("raised", k)):
+        if mode == "raise_once" and descriptors and not state.get(("raised", k)):
             e = PollBoom("poll%d call %d" % (k, idx))
-            b.poll_state[("raised", k)] = (e, [d.result for d in descriptors])
+            state[("raised", k)] = (e, [d.result for d in descriptors])
             raise e
         for d in descriptors:
             key = id(d)
